@@ -174,12 +174,12 @@ def record_gm(sp, rs, k):
 
 def record_pdhg(sp, rs, k):
     n = int(rs.choice([4, 8, 16]))
-    gk = str(rs.choice(["none", "l1", "l2", "box"]))
+    gk = str(rs.choice(["none", "l1", "l2", "l2", "box"]))
     cplx = bool(rs.rand() < 0.4) and gk != "box"
     A, xs, y, lam = make_problem(rs, n, cplx, gk, "wellcond")
     us = A @ xs - y
     nA = np.linalg.norm(A, 2)
-    mode = str(rs.choice(["scalar", "array", "accel"])) if gk == "l2" else str(rs.choice(["scalar", "array"]))
+    mode = str(rs.choice(["scalar", "array", "accel", "accel"])) if gk == "l2" else str(rs.choice(["scalar", "array"]))
     if mode == "array":
         sig = rs.uniform(0.5, 2.0, n)
         # diagonal preconditioning (Pock-Chambolle): tau_j = 1/sum_i |A_ij| sigma-weighted bound; use the safe scalar bound per entry
